@@ -16,6 +16,11 @@ import lbry.wallet  # noqa: F401
 from lbry.wallet import Transaction, Output, Input
 from lbry.error import InsufficientFundsError
 from lbry.wallet import coinselection
+from lbry.wallet.manager import WalletManager
+from lbry.wallet.usage_payment import WalletServerPayer
+from lbry.wallet.stream import StreamController
+from lbry.wallet.dewies import dewies_to_lbc
+from binascii import unhexlify
 
 import vlib
 from props import c03
@@ -144,20 +149,45 @@ class Instrument:
 
 
 class FakeNetwork:
-    """the wallet server as far as broadcast_or_release is concerned: accepts, rejects with an exception, or never
-    answers (the pending call is then cancelled by the caller)"""
-    is_connected = True
+    """the wallet server underneath the real WalletManager / Ledger / WalletServerPayer: per build it accepts the
+    broadcast, rejects it with an exception, never answers (the pending call is then cancelled by the caller), or the
+    connection is down; for the periodic payer the connection is lost during its first send and is back afterwards.
+    Outside a build (the reconnect handler) it is offline, so that ledger.join_network() needs no server."""
 
-    def __init__(self, behaviour):
-        self.behaviour = behaviour        # build -> 'accept' | 'reject' | 'hang'
+    def __init__(self, behaviour, events):
+        self.behaviour = behaviour        # build -> 'accept' | 'reject' | 'hang' | 'down' | 'payer'
+        self.events = events
+        self.attempts = {}
+        self.features = {}
+        self.payers = {}
+        self._connected = StreamController()
+        self.on_connected = self._connected.stream
+
+    @property
+    def is_connected(self):
+        mode = self.behaviour.get(cur_build.get())
+        return mode is not None and mode != 'down'
+
+    async def get_server_features(self):
+        b = cur_build.get()
+        if b in self.payers:
+            self.payers[b].running = False       # one payment per case: the pay loop ends after this round
+        return self.features
 
     async def broadcast(self, raw):
-        mode = self.behaviour.get(cur_build.get(), 'accept')
+        b = cur_build.get()
+        mode = self.behaviour.get(b, 'accept')
+        self.attempts[b] = self.attempts.get(b, 0) + 1
         await asyncio.sleep(0)
+        if mode == 'down' or (mode == 'payer' and self.attempts[b] == 1):
+            raise ConnectionError('connection to the wallet server lost')
         if mode == 'reject':
             raise ConnectionError('broadcast refused')
         if mode == 'hang':
             await asyncio.Event().wait()
+        # accepted: from now on the network knows this transaction and will confirm it
+        ids = [t.txo_ref.id for t in Transaction(unhexlify(raw)).inputs]
+        self.events.append(('sent', b, ('inputs', ids)))
         return 'accepted'
 
 
@@ -173,6 +203,10 @@ async def run_concurrent(world, case):
         # builds may list the same accounts in a different order
         return [world.accounts[i] for i in d.get('funding', case['funding'])]
     rows_before = await world.rows(funding)
+    orders = {}
+    for b, d in enumerate(case['builds']):
+        if 'funding' in d:
+            orders[b] = [r['rid'] for r in c03.spendable_rows(await world.rows(funding_of(d)))]
     rid_of = {r['txoid']: r['rid'] for r in await world.sql("SELECT rowid AS rid, txoid FROM txo")}
     c03.RecordingRandom.log = []
     c03.RecordingRandom.source = random.Random(case.get('seed', 0))
@@ -196,6 +230,29 @@ async def run_concurrent(world, case):
             await asyncio.sleep(0.001)
         while d.get('after_read_of') is not None and not any(k == 'read' and x == d['after_read_of'] for k, x, _ in events):
             await asyncio.sleep(0.001)
+        while d.get('after_payer_fail') is not None and not (
+                ledger.network.attempts.get(d['after_payer_fail']) and ins.released.get(d['after_payer_fail']) is not None):
+            if 'status' in results.get(d['after_payer_fail'], {}):
+                break
+            await asyncio.sleep(0.001)
+        if d.get('payer'):
+            # the real periodic WalletServerPayer makes this payment: it builds, signs and sends through
+            # ledger.broadcast_or_release; the hub connection is lost during the send
+            outs = c03.make_outputs(d['outs'])
+            res = {'pre_desc': [], 'outs': outs, 'pre_wallet': [], 'payer': True}
+            results[b] = res
+            payer = WalletServerPayer(payment_period=0, max_fee='9999999999.0')
+            ledger.network.payers[b] = payer
+            ledger.network.features = {'payment_address': ledger.hash160_to_address(bytes([d['outs'][0].get('tag', 7)]) * 20),
+                                       'daily_fee': dewies_to_lbc(d['outs'][0]['amount'])}
+            await payer.start(ledger, world.wallet)
+            payers.append(payer)
+            for _ in range(5000):
+                if payer.task.done() or (ledger.network.attempts.get(b) and ins.released.get(b) is not None):
+                    break
+                await asyncio.sleep(0.001)
+            res['status'] = 'released' if ledger.network.attempts.get(b) else ('failed' if ins.asked.get(b) else 'prelock')
+            return
         pre, pre_desc = c03.make_pre(world, d, made, rid_of)
         outs = c03.make_outputs(d['outs'])
         res = {'pre_desc': pre_desc, 'outs': outs, 'pre_wallet': [x[0] for x in pre_desc if x[0] < c03.EXTERNAL_BASE]}
@@ -227,14 +284,14 @@ async def run_concurrent(world, case):
             res['status'] = 'released'
         elif act == 'broadcast_fail':
             try:
-                await ledger.broadcast_or_release(tx)
+                await manager.broadcast_or_release(tx)
                 res['status'] = 'EXC broadcast did not fail'
             except ConnectionError:
                 res['status'] = 'released'
         elif act == 'broadcast_cancel':
             # the server never answers; the caller gives up (wait_for timeout / task.cancel): the transaction was never
             # sent, it is abandoned
-            pending = asyncio.ensure_future(ledger.broadcast_or_release(tx))
+            pending = asyncio.ensure_future(manager.broadcast_or_release(tx))
             for _ in range(d.get('cancel_after', 2)):
                 await asyncio.sleep(0)
             pending.cancel()
@@ -243,9 +300,17 @@ async def run_concurrent(world, case):
                 res['status'] = 'EXC cancelled broadcast returned'
             except asyncio.CancelledError:
                 res['status'] = 'released'
+        elif act == 'broadcast_down':
+            # the connection to the wallet server is down when the transaction is handed over: it cannot be sent, so it
+            # has to be released
+            try:
+                await manager.broadcast_or_release(tx)
+                res['status'] = 'EXC broadcast without a connection returned'
+            except ConnectionError:
+                res['status'] = 'released'
         elif act == 'broadcast':
             # accepted by the network through the real broadcast_or_release; what the ledger then records: inputs spent
-            await ledger.broadcast_or_release(tx)
+            await manager.broadcast_or_release(tx)
             await ins.pause()
             tok = op_label.set(('spend', b))
             try:
@@ -284,8 +349,26 @@ async def run_concurrent(world, case):
                 break
             await asyncio.sleep(0.001)
     ins.after_read = after_read
-    ledger.network = FakeNetwork({b: {'broadcast_fail': 'reject', 'broadcast_cancel': 'hang'}.get(d['action'], 'accept')
-                                  for b, d in enumerate(case['builds'])})
+    ledger.network = FakeNetwork({b: {'broadcast_fail': 'reject', 'broadcast_cancel': 'hang', 'broadcast_down': 'down',
+                                      'payer_down': 'payer'}.get(d['action'], 'accept')
+                                  for b, d in enumerate(case['builds'])}, events)
+    manager = WalletManager(wallets=[world.wallet], ledgers={type(ledger): ledger})
+    payers = []
+
+    async def release_other(k, rd):
+        # the reservations of a DIFFERENT account are released (utxo_release for that account): nothing held by builds
+        # that are funded from this account may change
+        for _ in range(rd.get('delay', 0)):
+            await asyncio.sleep(0)
+        if rd.get('after') is not None:
+            while 'tx' not in results.get(rd['after'], {}) and 'status' not in results.get(rd['after'], {}):
+                await asyncio.sleep(0.001)
+        tok = op_label.set(('sync', 'relother%d' % k))
+        try:
+            await ledger.db.release_all_outputs(world.accounts[1])
+        finally:
+            op_label.reset(tok)
+        synced.add('o%d' % k)
 
     synced = set()
 
@@ -313,6 +396,23 @@ async def run_concurrent(world, case):
         for acc in funding:
             acc.encrypt('password')      # wallet locked: funding works, signing cannot
     try:
+        async def reconnect(k, rd):
+            # the connection to the wallet server drops and comes back: the network emits on_connected and the ledger runs
+            # its handler, the real Ledger.join_network; nothing about reservations may change
+            for _ in range(rd.get('delay', 0)):
+                await asyncio.sleep(0)
+            if rd.get('after') is not None:
+                while 'tx' not in results.get(rd['after'], {}) and 'status' not in results.get(rd['after'], {}):
+                    await asyncio.sleep(0.001)
+            tok = op_label.set(('sync', 'reconnect%d' % k))
+            try:
+                ledger.network._connected.add(True)           # the network emits on_connected ...
+                await ledger.join_network(True)               # ... and the ledger runs its handler
+                await ledger.db.db.run(lambda conn: None)      # a point at which the is_reserved column is sampled
+            finally:
+                op_label.reset(tok)
+            synced.add('r%d' % k)
+
         async def guarded(b, d):
             try:
                 await job(b, d)
@@ -320,7 +420,19 @@ async def run_concurrent(world, case):
                 results.setdefault(b, {})['status'] = 'EXC ' + type(e).__name__ + ':' + str(e)[:80]
         tasks = [asyncio.ensure_future(guarded(b, case['builds'][b])) for b in case['start_order']]
         tasks += [asyncio.ensure_future(sync(k, sd)) for k, sd in enumerate(case.get('syncs', []))]
+        tasks += [asyncio.ensure_future(reconnect(k, rd)) for k, rd in enumerate(case.get('reconnects', []))]
+        tasks += [asyncio.ensure_future(release_other(k, rd)) for k, rd in enumerate(case.get('release_others', []))]
         await asyncio.gather(*tasks)
+        if payers:
+            await asyncio.sleep(0.05)          # a payer that (wrongly) waited for the reconnect gets to send now
+            for p_ in payers:
+                p_.running = False
+                if p_.task is not None and not p_.task.done():
+                    p_.task.cancel()
+                    try:
+                        await p_.task
+                    except BaseException:  # noqa
+                        pass
     finally:
         ins.restore()
         if case.get('locked'):
@@ -336,10 +448,6 @@ async def run_concurrent(world, case):
     shuffles_by = {}
     for a, b, who in c03.RecordingRandom.log:
         shuffles_by.setdefault(who, []).append([[rid_of[i] for i in a], [rid_of[i] for i in b]])
-    orders = {}
-    for b, d in enumerate(case['builds']):
-        if 'funding' in d:
-            orders[b] = [r['rid'] for r in c03.spendable_rows(await world.rows(funding_of(d)))]
     obs = {'rows_before': rows_before, 'rows_after': rows_after, 'events': events, 'results': results, 'orders': orders,
            'asked': ins.asked, 'shuffles': shuffles, 'shuffles_by': shuffles_by, 'rid_of': rid_of,
            'unsignable': [r['rid'] for r in await world.rows([world.accounts[c03.GHOST]])]}
@@ -348,7 +456,7 @@ async def run_concurrent(world, case):
     for b in range(len(case['builds'])):
         r = results.get(b, {})
         pw = r.get('pre_wallet', [])
-        if r.get('status') == 'failed':
+        if r.get('status') == 'failed' or r.get('payer'):
             took = [rid_of[t] for t in ins.released.get(b, []) if t in rid_of]
         else:
             took = pw + r.get('added', [])
@@ -369,7 +477,7 @@ def schedule_of(events, n):
         if kind == 'sync':
             sched.append(n)       # Model/C14.step ignores indices that are no build: a no-op on the wallet and on reserved
             continue
-        if not isinstance(b, int):
+        if not isinstance(b, int) or kind == 'sent':
             continue
         if kind == 'lock':
             holding.add(b)
@@ -409,7 +517,7 @@ def model_run(model, case, obs, sched, upto=None):
     builds = []
     for b, d in enumerate(case['builds']):
         builds.append({'strategy': case['strategy'], 'amounts': obs['asked'].get(b, []),
-                       'broadcast': d['action'] == 'broadcast', 'sign': bool(d.get('sign')),
+                       'broadcast': d['action'] == 'broadcast', 'sign': bool(d.get('sign')) or bool(d.get('payer')),
                        'order': obs['orders'].get(b), 'pre': obs['results'].get(b, {}).get('pre_wallet', []),
                        'start': bool(obs['asked'].get(b))})
     return model.call('run', fpb=case['fpb'], shuffles=obs['shuffles'], builds=builds,
@@ -432,13 +540,24 @@ def monitor(case, impl, obs):
     prev = set()
     pre_checked = set()
     for kind, b, snap in events:
+        if kind == 'sent':
+            ids = {rid_of[t] for t in snap[1] if t in rid_of}
+            if not ids <= held.get(b, set()):
+                others = {x: sorted(h & ids) for x, h in held.items() if x != b and h & ids}
+                return ('the transaction of build %s was sent to the network although its inputs %s were no longer held by '
+                        'it (it had been released; now held by %s): a released transaction may not be sent later' % (
+                            b, sorted(ids - held.get(b, set())), others))
+            continue
         if snap is None or b is None:
             continue
         cur = {rid_of[t] for t in snap}
         if kind == 'sync':
             if cur != prev:
                 holders = {x: sorted(h & (prev - cur)) for x, h in held.items() if h & (prev - cur)}
-                return ('re-saving the funding transaction changed is_reserved: %s became available while held by %s '
+                what = ('a reconnect (ledger.join_network)' if str(b).startswith('reconnect') else
+                        'releasing the reservations of another account' if str(b).startswith('relother') else
+                        're-saving the funding transaction')
+                return (what + ' changed is_reserved: %s became available while held by %s '
                         '(an output must stay unavailable until its holder is broadcast or abandoned)' % (
                             sorted(prev - cur), holders))
             continue
@@ -531,7 +650,7 @@ def linearize(c03_model, case, impl, obs):
     started = set()
     pre_marked = set()
     for kind, b, _ in obs['events']:
-        if not isinstance(b, int):
+        if not isinstance(b, int) or kind == 'sent':
             continue
         if kind == 'read' and b in started:
             continue
@@ -576,7 +695,11 @@ def linearize(c03_model, case, impl, obs):
                         e[1] = True
             else:
                 want[b] = {'result': m.get('result')}
-            if r.get('signfail'):
+            if r.get('payer') and r.get('status') != 'failed':
+                # the payer does not hand out its transaction: only its inputs are known (what it released)
+                got[b] = {'result': 'ok', 'added': impl['builds'][b]['took']}
+                want[b].pop('change', None)
+            elif r.get('signfail'):
                 got[b] = {'result': 'SignFails'}
             elif r.get('status') == 'failed':
                 got[b] = {'result': 'InsufficientFundsError'}
@@ -669,6 +792,29 @@ def gen_case(rng, tier):
         for _ in range(rng.choice([1, 1, 2])):
             syncs.append({'delay': rng.choice([0, 3, 10, 25, 60]), 'gap': rng.choice([0, 1, 4]),
                           'txs': sorted(rng.sample(range(len(txs)), rng.randrange(1, len(txs) + 1)))})
+    release_others = []
+    if fund == 0 and not two and rng.random() < 0.25:
+        for _ in range(rng.choice([1, 1, 2])):
+            release_others.append({'delay': rng.choice([0, 5, 15, 40, 80])})
+    for d in builds:
+        if d['action'] in ('broadcast_fail', 'broadcast') and rng.random() < 0.2:
+            d['action'] = 'broadcast_down'
+    reconnects = []
+    if fund == 0 and not two and not locked and rng.random() < 0.12:
+        # the periodic wallet-server payer pays its fee: the hub is lost during the send, another build runs in the gap,
+        # then the connection comes back
+        p_ = len(builds)
+        builds.append({'outs': [{'kind': 'pay', 'amount': max(1000, total // rng.choice([2, 3, 5, 20])), 'tag': 11}], 'pre': [],
+                       'payer': True, 'sign': False, 'funding': [0, 1], 'action': 'payer_down', 'delay': rng.choice([0, 2, 10]),
+                       'hold_yields': 0, 'yields': [rng.choice([0, 0, 1, 2]) for _ in range(40)]})
+        builds.append({'outs': [{'kind': 'pay', 'amount': max(1000, total // rng.choice([2, 3, 5]))}], 'pre': [], 'sign': False,
+                       'action': rng.choice(['hold', 'broadcast', 'release']), 'delay': 0, 'hold_yields': 0, 'after_payer_fail': p_,
+                       'yields': [rng.choice([0, 0, 1, 2]) for _ in range(40)]})
+        reconnects.append({'delay': 0, 'after': p_ + 1})
+        n = len(builds)
+    if rng.random() < 0.3:
+        for _ in range(rng.choice([1, 1, 2])):
+            reconnects.append({'delay': rng.choice([0, 5, 15, 40, 80])})
     for d in builds:
         if d['action'] == 'broadcast_fail' and rng.random() < 0.5:
             d['action'] = 'broadcast_cancel'
@@ -676,7 +822,7 @@ def gen_case(rng, tier):
     order = list(range(n))
     rng.shuffle(order)
     return {'kind': 'concurrent', 'fpb': fpb, 'fpnc': 0, 'strategy': strategy, 'funding': [0, 1] if two else [fund],
-            'change': fund, 'txs': txs, 'locked': locked, 'syncs': syncs,
+            'change': fund, 'txs': txs, 'locked': locked, 'syncs': syncs, 'reconnects': reconnects, 'release_others': release_others,
             'reserved': [], 'builds': builds, 'start_order': order, 'seed': rng.getrandbits(32)}
 
 
@@ -690,7 +836,13 @@ async def check_concurrent(run, world, model, case, kind, c03_model=None):
     if case.get('locked'):
         run.count('locked-account')
     if case.get('syncs'):
-        run.count('sync re-saves funding transactions', sum(1 for k, b, _ in obs['events'] if k == 'sync'))
+        run.count('sync re-saves funding transactions', sum(1 for k, b, _ in obs['events'] if k == 'sync' and str(b).startswith('sync')))
+    if case.get('release_others'):
+        run.count('release_all_outputs(another account) during the builds', len(case['release_others']))
+    run.count('broadcast with the connection down', sum(1 for d in case['builds'] if d['action'] == 'broadcast_down'))
+    run.count('WalletServerPayer payments losing the hub', sum(1 for d in case['builds'] if d.get('payer')))
+    if case.get('reconnects'):
+        run.count('reconnects (ledger.join_network) during the builds', len(case['reconnects']))
     if len(case['funding']) > 1:
         run.count('two accounts listed in different orders')
     run.count('builds with pre-chosen wallet outputs', sum(1 for r in obs['results'].values() if r.get('pre_wallet')))
